@@ -22,6 +22,7 @@ impl SchemaMut {
 		let mut state = WriteCanonicalFormState {
 			w: ErrorConversionWriter(Rabin::default()),
 			named_type_written: vec![false; self.nodes.len()],
+			unnamed_type_being_written: vec![false; self.nodes.len()],
 		};
 		state.write_canonical_form(self, SchemaKey::from_idx(0))?;
 		Ok(state.w.0.finish())
@@ -31,6 +32,10 @@ impl SchemaMut {
 struct WriteCanonicalFormState<W> {
 	w: ErrorConversionWriter<W>,
 	named_type_written: Vec<bool>,
+	/// Unnamed nodes (array, map, union) whose canonical form we are currently in
+	/// the middle of writing: meeting one again means the schema has a cycle
+	/// that goes through no named type, which has no (finite) canonical form
+	unnamed_type_being_written: Vec<bool>,
 }
 
 impl<W: Write> WriteCanonicalFormState<W> {
@@ -46,6 +51,17 @@ impl<W: Write> WriteCanonicalFormState<W> {
 			.nodes
 			.get(key.idx)
 			.ok_or_else(|| SchemaError::new("SchemaKey refers to non-existing node"))?;
+
+		if matches!(
+			node.type_,
+			RegularType::Union(_) | RegularType::Array(_) | RegularType::Map(_)
+		) && std::mem::replace(&mut self.unnamed_type_being_written[key.idx], true)
+		{
+			return Err(SchemaError::new(
+				"The schema contains a cycle that only goes through unnamed types \
+					(array, map, union): it has no parsing canonical form",
+			));
+		}
 
 		let mut first_time = true;
 		let should_not_write_only_name =
@@ -162,6 +178,7 @@ impl<W: Write> WriteCanonicalFormState<W> {
 				}
 			}
 		}
+		self.unnamed_type_being_written[key.idx] = false;
 		Ok(())
 	}
 }
